@@ -70,7 +70,59 @@ def _random_choice_list(fn, n, env, want):
     return pre, V(t), ty[1]
 
 
+def _individual_by_id(fn, n, env, want):
+    """`self.individual(individuals, id)`: ids are positions (distinct ids, as the model assumes), so the first
+    member with that id is the member at position `id`; no such member -> `None`, and the feature access
+    that follows raises: emitted as the guard `id < n` at the call."""
+    from py2lean import Tm, Op, bad
+    if len(n.args) != 2 or n.keywords or ast_unparse(n.args[0]) != "individuals":
+        bad(n, "self.individual called on something other than (individuals, id)")
+    pre, v, ty = fn.expr(n.args[1], env, "Nat")
+    if ty != "Nat":
+        bad(n, "id of type %s" % ty)
+    return pre + [("guard", Op("<", v, Tm("n", fv=["n"])))], v, "Pos"
+
+
+def ast_unparse(n):
+    import ast
+    return ast.unparse(n)
+
+
 SPECS = {
+    "Sorting": {
+        "source": "artap/operators.py",
+        "serves": ["C02", "C03", "C09"],
+        "imports": ["ArtapModel.Model.Sorting"],
+        "functions": [
+            {   # Individuals are positions 0..n-1 (`Pos`, written Nat; ids = positions); the three features that the
+                # function writes live in three tables indexed by position (stale values on entry are the parameters
+                # counter / dominate / front); the comparator verdict on two members is `cmp i j`.
+                "py": "Selector.fast_nondominated_sorting", "lean": "Selector_fast_nondominated_sorting",
+                "py_params": ["self", "individuals"],
+                "params": [("cmp", "Nat → Nat → Nat"), ("n", "Nat"), ("counter", L("Int")),
+                           ("dominate", L(L("Nat"))), ("front", L(("Option", "Nat")))],
+                "lean_types": {"Pos": "Nat", "Pos#cs": "Nat", "Pos#features": "Nat"},
+                "tables": {"counter": "Int", "dominate": L("Nat"), "front": ("Option", "Nat")},
+                "bind": {"individuals": ("(List.range n)", L("Pos")), "len(individuals)": ("n", "Nat")},
+                "types": {
+                    "Pos": {".features": ("{0}", "Pos#features"), ".costs_signed": ("{0}", "Pos#cs"),
+                            ".id": ("{0}", "Nat")},
+                    "Pos#features": {"['domination_counter']": ("@counter", "Int"),
+                                     "['dominate']": ("@dominate", L("Nat")),
+                                     "['front_number']": ("@front", ("Option", "Nat"))},
+                },
+                "calls": {
+                    "self.comparator.compare": {"fn": "cmp", "args": ["Pos#cs", "Pos#cs"], "ret": "Nat"},
+                    "self.individual": {"expr": _individual_by_id},
+                },
+                "ret": "Unit", "raises": True, "none_ret": "()",
+                "result": ("{front}", L(("Option", "Nat"))),
+                "fuel": ["n + 1"],
+                "ignore": ["for sub_front in pareto_front:\n    crowding_distance(sub_front)"],
+                "ignore_why": "crowding_distance writes only the crowding_distance feature, never a front number; tied separately (Crowding)",
+            },
+        ],
+    },
     "Dominance": {
         "source": "artap/operators.py",
         "serves": ["C01", "C02", "C03", "C04", "C09"],
